@@ -259,6 +259,53 @@ def multi_writer_histories(ctx, digital_rf, count, npairs=2, nvec=0):
     return scen, recs
 
 
+def fragmented_histories(ctx, digital_rf, count, npairs=14, nvec=4):
+    """files that collect many index rows (more than 100: beyond the first HDF5 chunk of rf_data_index): block calls of
+    dozens of short blocks separated by short gaps, several calls into one file, going on into the next file; then reads
+    whose ends fall on and inside the gaps"""
+    import numpy as np
+    rng = ctx.rng
+    scen = []
+    for i in range(count):
+        n, d, fc = rng.choice([(1000, 1, 700), (2000, 3, 900), (48000, 1, 20)])
+        t0 = (rng.randint(315532800, 4102444800) * 1000) // (fc * 10) * (fc * 10)
+        mode = ["gapped", "contC", "gapped"][i % 3]
+        cfg = cd.ChanConfig(n, d, fc, fc * 10 // 1000 + 1 if (fc * 10) % 1000 else fc * 10 // 1000, np.dtype(rng.choice(["<i2", ">i4", "<f4"])), bool(i % 2),
+                            1 + i % 2, mode, t0, 3, compression=(1 if mode == "contC" else rng.choice([0, 1])), checksum=False, seed=7000 + i)
+        root = os.path.join(ctx.work, "chan")
+        shutil.rmtree(root, ignore_errors=True)
+        os.makedirs(root)
+        ch = cd.Channel(digital_rf, root, cfg, [cfg.params()])
+        b = cfg.bound
+        ch.open(1, b[0], 1)
+        pos = b[0]
+        nrows = 0
+        for call in range(rng.randint(3, 4)):
+            runs = []
+            for _ in range(rng.randint(38, 55)):
+                ln = rng.choice([1, 2, 2, 3])
+                gap = rng.choice([1, 1, 2, 3])
+                if pos + gap + ln >= b[-1] - 2:
+                    break
+                runs.append([pos + gap, ln])
+                pos += gap + ln
+            if len(runs) >= 2:
+                ev = ch.write(runs)
+                nrows += len(runs)
+                if ev["resp"] != "ok":
+                    break
+            if rng.random() < 0.5 and pos + 2 < b[-1]:
+                ch.write([[pos, 1]])            # a contiguous single write in between
+                pos += 1
+        ch.close()
+        ch.observe([1], rng, npairs=npairs, nvec=nvec)
+        scen.append(ch.scenario("fragmented%d" % i))
+        ch.kept = []
+        shutil.rmtree(root, ignore_errors=True)
+    ctx.extra["fragmented_files_histories"] = count
+    return scen
+
+
 def account(ctx, scen, nsim, what):
     ev = [e for s in scen for e in s["events"]]
     kinds = {}
